@@ -137,3 +137,301 @@ Fixpoint rm_trace (m : imap) (ops : list rm_op) : list imap :=
   | [] => []
   | o :: t => let m' := rm_apply m o in m' :: rm_trace m' t
   end.
+
+(* ------------------------------------------------------------------------------------ *)
+(* Part 2: the store and the read path                                                   *)
+(* ------------------------------------------------------------------------------------ *)
+(* Bytes are Z.  The user's iovec is modelled as one flat buffer (`w_ubuf`); IOVector
+   operations (extract_front/back, slice, memcpy_to) are replaced by their flat-byte
+   meaning (that is property C14); the harness drives the real code with every
+   segmentation and the flat result is compared.  A window [lo,hi) of the user buffer
+   stands for the IOVector `input`. *)
+
+Definition zlen {A} (l : list A) : Z := Z.of_nat (length l).
+Definition slice (l : list Z) (off n : Z) : list Z := firstn (Z.to_nat n) (skipn (Z.to_nat off) l).
+Definition pad_to (l : list Z) (n : Z) : list Z := l ++ repeat 0 (Z.to_nat (n - zlen l)).
+Definition splice (l : list Z) (pos : Z) (data : list Z) : list Z :=
+  firstn (Z.to_nat pos) l ++ data ++ skipn (Z.to_nat pos + length data) l.
+(* pwrite on a plain file: zero-fill the gap, overwrite, keep the rest *)
+Definition media_write (m : list Z) (off : Z) (data : list Z) : list Z := splice (pad_to m off) off data.
+(* ftruncate on a plain file *)
+Definition resize (l : list Z) (n : Z) : list Z := firstn (Z.to_nat n) (pad_to l n).
+(* fallocate(PUNCH_HOLE|KEEP_SIZE) *)
+Definition punch (m : list Z) (off cnt : Z) : list Z :=
+  let n := Z.max 0 (Z.min cnt (zlen m - off)) in
+  if 0 <? n then splice m off (repeat 0 (Z.to_nat n)) else m.
+(* bytes a plain-file pread(off,len) returns *)
+Definition avail (size off len : Z) : Z := Z.max 0 (Z.min len (size - off)).
+
+(* scripted outcome of one source call / one media write *)
+Inductive outcome := OOk | OShort (n : Z) | OFail.
+Definition pop (l : list outcome) : outcome * list outcome :=
+  match l with [] => (OOk, []) | o :: t => (o, t) end.
+
+Inductive event :=
+| EvStat (ret : Z)                 (* source fstat: size or -1 *)
+| EvSrc (off len ret : Z)          (* source preadv2 *)
+| EvMedR (off len ret : Z)         (* media preadv *)
+| EvMedW (off len ret : Z)         (* media pwritev *)
+| EvMedT (len : Z)                 (* media ftruncate *)
+| EvPunch (off len : Z)            (* media fallocate punch hole *)
+| EvWait                           (* reader blocked on range_lock_; the scripted holders ran *)
+| EvRet (ret : Z).                 (* preadv2 returned *)
+
+Record store := mkStore {
+  s_actual : Z;          (* ICacheStore::actual_size_ *)
+  s_filled : imap;       (* FileCacheStore::filledRanges_ *)
+  s_media : list Z;      (* content of the media file; its length is st_size *)
+  s_td : bool;           (* lruEntry->truncate_done *)
+  s_refilling : Z        (* pool_->m_refilling *)
+}.
+
+Record world := mkW {
+  w_st : store;
+  w_sor : list outcome;                 (* oracle for source calls, consumed in call order *)
+  w_wor : list outcome;                 (* oracle for media writes *)
+  w_ubuf : list Z;                      (* the user's buffer, flat *)
+  w_held : list (Z * Z * bool);         (* range_lock_ entries of other threads (off,len,fills?) *)
+  w_pending : list (Z * list Z);        (* async_refill contexts not yet run *)
+  w_log : list event                    (* newest first *)
+}.
+
+Record config := mkCfg {
+  c_page : Z;            (* page_size_ *)
+  c_unit : Z;            (* refillUnit_ *)
+  c_pool : bool;         (* pool_ != nullptr *)
+  c_tp : bool;           (* pool_->m_thread_pool != nullptr *)
+  c_maxr : Z;            (* pool_->m_max_refilling (== the function-static max_refilling) *)
+  c_thr : Z              (* pool_->m_refilling_threshold *)
+}.
+
+Definition set_st (w : world) (st : store) : world :=
+  mkW st (w_sor w) (w_wor w) (w_ubuf w) (w_held w) (w_pending w) (w_log w).
+Definition add_log (w : world) (e : event) : world :=
+  mkW (w_st w) (w_sor w) (w_wor w) (w_ubuf w) (w_held w) (w_pending w) (e :: w_log w).
+Definition put (w : world) (pos : Z) (data : list Z) : world :=
+  mkW (w_st w) (w_sor w) (w_wor w) (splice (w_ubuf w) pos data) (w_held w) (w_pending w) (w_log w).
+
+(* common/utility.h:229-237 *)
+Definition align_down (x a : Z) : Z := Z.land x (Z.lnot (a - 1)).
+Definition align_up (x a : Z) : Z := align_down (x + a - 1) a.
+
+Inductive tres := THit (size : Z) | TShort | TMiss (off size : Z).
+Inductive rres := RRet (ret : Z) | RAgain.
+
+Section ReadPath.
+  Variable src : list Z.       (* content of the source file; it does not change *)
+  Variable cfg : config.
+
+  (* scripted source IFile::preadv2 *)
+  Definition src_pread (w : world) (off len : Z) : Z * list Z * world :=
+    let (o, rest) := pop (w_sor w) in
+    let av := avail (zlen src) off len in
+    let ret := match o with OOk => av | OShort n => Z.min (Z.max 0 n) av | OFail => -1 end in
+    let data := if ret <? 0 then [] else slice src off ret in
+    (ret, data, mkW (w_st w) rest (w_wor w) (w_ubuf w) (w_held w) (w_pending w) (EvSrc off len ret :: w_log w)).
+
+  (* FileCacheStore::do_pwritev2 -> do_pwritev, cache_store.cpp:72-106 (pool never full) *)
+  Definition do_pwritev2 (w : world) (off : Z) (data : list Z) : Z * world :=
+    let st := w_st w in
+    let '(media1, log1) :=
+      if s_td st then (s_media st, w_log w)
+      else (resize (s_media st) (s_actual st), EvMedT (s_actual st) :: w_log w) in
+    let (o, rest) := pop (w_wor w) in
+    let len := zlen data in
+    let ret := match o with OOk => len | OShort n => Z.min (Z.max 0 n) len | OFail => -1 end in
+    let media2 := if 0 <? ret then media_write media1 off (firstn (Z.to_nat ret) data) else media1 in
+    let filled2 := if 0 <? ret then addRange (s_filled st) off (off + ret) else s_filled st in
+    (ret, mkW (mkStore (s_actual st) filled2 media2 true (s_refilling st))
+              (w_sor w) rest (w_ubuf w) (w_held w) (w_pending w) (EvMedW off len ret :: log1)).
+
+  (* FileCacheStore::queryRefillRange on the in-memory path, cache_store.cpp:108-113,218-228 *)
+  Definition query (st : store) (off size : Z) : Z * Z :=
+    let h := queryRefillRange (s_filled st) off (off + size) in
+    if (fst h =? 0) && (snd h =? 0) then (0, 0) else
+    let l := align_down (fst h) (c_unit cfg) in
+    let r := align_up (snd h) (c_unit cfg) in
+    (l, r - l).
+
+  (* ICacheStore::try_preadv2, store.cpp:318-338 (inside FileCacheStore's read lock) *)
+  Definition try_preadv2 (w : world) (lo hi offset : Z) : tres * world :=
+    let sum := hi - lo in
+    let q := query (w_st w) offset sum in
+    if (0 <=? fst q) && (snd q =? 0) then
+      let media := s_media (w_st w) in
+      let n := avail (zlen media) offset sum in
+      let w1 := put (add_log w (EvMedR offset sum n)) lo (slice media offset n) in
+      if n =? sum then (THit n, w1) else (TShort, w1)
+    else (TMiss (fst q) (snd q), w).
+
+  (* RangeLock::try_lock_wait conflict test against the ranges other threads hold *)
+  Definition overlaps (o l o2 l2 : Z) : bool := (o2 <? o + l) && (o <? o2 + l2).
+  Definition conflict (held : list (Z * Z * bool)) (o l : Z) : bool :=
+    existsb (fun h => match h with (o2, l2, _) => overlaps o l o2 l2 end) held.
+
+  (* what happens while the reader waits: every scripted holder optionally writes the source
+     bytes of its range into the cache (as a concurrent refiller does), then all unlock *)
+  Fixpoint run_holders_aux (w : world) (hs : list (Z * Z * bool)) : world :=
+    match hs with
+    | [] => w
+    | (o, l, fill) :: t =>
+        let w1 := if fill then
+                    let d := slice src o (avail (zlen src) o l) in
+                    match d with [] => w | _ => snd (do_pwritev2 w o d) end
+                  else w in
+        run_holders_aux w1 t
+    end.
+  Definition run_holders (w : world) : world :=
+    let w1 := run_holders_aux (add_log w EvWait) (w_held w) in
+    mkW (w_st w1) (w_sor w1) (w_wor w1) (w_ubuf w1) [] (w_pending w1) (w_log w1).
+
+  (* ICacheStore::do_refill_range with input != nullptr, store.cpp:201-302.
+     [lo,hi) = input, hi-lo = count on entry. *)
+  Definition do_refill (sync : bool) (w : world) (roff rsize0 count asize lo hi offset : Z) : rres * world :=
+    let st := w_st w in
+    if c_pool cfg && negb sync && (c_thr cfg <=? s_refilling st) then       (* 203-208 *)
+      let '(ret, data, w1) := src_pread w offset (hi - lo) in
+      (RRet ret, put w1 lo data)
+    else
+    let rsize := if asize <? roff + rsize0 then asize - roff else rsize0 in   (* 210 *)
+    if conflict (w_held w) roff rsize then (RAgain, run_holders w)            (* 211-212 *)
+    else if negb (asize =? s_actual st) then (RAgain, w)                      (* 217 *)
+    else
+    let '(ret0, data, w1) := src_pread w roff rsize in                        (* 237 *)
+    if negb (ret0 =? rsize) then (RRet (-1), w1)                              (* 240-245 *)
+    else
+    let '(ret, w2, lo2, hi2, offset2) :=
+      if roff <=? offset then                                                 (* 251-256 *)
+        let rb := skipn (Z.to_nat (offset - roff)) data in
+        let n := Z.min count (Z.min (zlen rb) (hi - lo)) in
+        (n, put w1 lo (firstn (Z.to_nat n) rb), lo + n, hi, offset + n)
+      else if offset + count <=? roff + rsize then                            (* 257-262 *)
+        let d := roff - offset in
+        let tl := Z.max 0 (Z.min (count - d) ((hi - lo) - d)) in
+        let n := Z.min (zlen data) tl in
+        (n, put w1 (lo + d) (firstn (Z.to_nat n) data), lo, hi - n, offset)
+      else (0, w1, lo, hi, offset) in                                         (* 263 *)
+    let st2 := w_st w2 in
+    let async := negb (ret =? 0) && negb sync && c_pool cfg && c_tp cfg
+                 && (s_refilling st2 <? c_maxr cfg) in                        (* 265-266 *)
+    let w3 :=
+      if async then                                                           (* 267-271 *)
+        mkW (mkStore (s_actual st2) (s_filled st2) (s_media st2) (s_td st2) (s_refilling st2 + 1))
+            (w_sor w2) (w_wor w2) (w_ubuf w2) (w_held w2) (w_pending w2 ++ [(roff, data)]) (w_log w2)
+      else snd (do_pwritev2 w2 roff data) in                                  (* 273-283 *)
+    if negb (ret =? count) then                                               (* 287-299 *)
+      let (tr, w4) := try_preadv2 w3 lo2 hi2 offset2 in
+      match tr with
+      | THit _ => (RRet count, w4)
+      | _ =>
+          let '(r2, d2, w5) := src_pread w4 offset2 (hi2 - lo2) in
+          let w6 := put w5 lo2 d2 in
+          if r2 + ret =? count then (RRet count, w6) else (RRet (-1), w6)
+      end
+    else (RRet count, w3).
+
+  (* ICacheStore::tryget_size, store.cpp:418-431 (truncated_ is never set; cached_size_ is
+     always 0, so set_cached_size is a no-op) *)
+  Definition tryget_size (w : world) : Z * world :=
+    let st := w_st w in
+    if negb (s_actual st mod c_page cfg =? 0) then (0, w)
+    else
+      let (o, rest) := pop (w_sor w) in
+      match o with
+      | OFail => (-1, mkW st rest (w_wor w) (w_ubuf w) (w_held w) (w_pending w) (EvStat (-1) :: w_log w))
+      | _ =>
+          let sz := zlen src in
+          let st1 := mkStore (if s_actual st <? sz then sz else s_actual st)
+                             (s_filled st) (s_media st) (s_td st) (s_refilling st) in
+          (0, mkW st1 rest (w_wor w) (w_ubuf w) (w_held w) (w_pending w) (EvStat sz :: w_log w))
+      end.
+
+  (* store.cpp:58-92, the `again:` loop; -2 = fuel exhausted (never returned by the C++) *)
+  Fixpoint preadv2_loop (fuel : nat) (co sync : bool) (w : world) (offset vsize : Z) : Z * world :=
+    match fuel with
+    | O => (-2, w)
+    | S f =>
+        let asize := s_actual (w_st w) in
+        if asize <=? offset then (0, w) else
+        let iov_size := if asize <? offset + vsize then asize - offset else vsize in
+        if co then
+          let (tr, w1) := try_preadv2 w 0 iov_size offset in
+          match tr with THit n => (n, w1) | _ => (-1, w1) end
+        else
+          let (tr, w1) := try_preadv2 w 0 iov_size offset in
+          match tr with
+          | THit n => (n, w1)
+          | TShort =>
+              let '(r, d, w2) := src_pread w1 offset iov_size in (r, put w2 0 d)
+          | TMiss roff rsize =>
+              match do_refill sync w1 roff rsize iov_size asize 0 iov_size offset with
+              | (RRet r, w2) => (r, w2)
+              | (RAgain, w2) => preadv2_loop f co sync w2 offset vsize
+              end
+          end
+    end.
+
+  (* ICacheStore::preadv2, store.cpp:44-93 *)
+  Definition preadv2 (co sync : bool) (w : world) (offset vsize : Z) : Z * world :=
+    if offset <? 0 then (-1, w) else
+    if vsize =? 0 then (0, w) else
+    let asize := s_actual (w_st w) in
+    let (r, w1) := if (asize <=? offset) || (asize <? offset + vsize) then tryget_size w else (0, w) in
+    if negb (r =? 0) then (-1, w1) else preadv2_loop 4 co sync w1 offset vsize.
+
+  (* ICacheStore::async_refill, store.cpp:181-199: the deferred media write *)
+  Fixpoint drain_aux (w : world) (ps : list (Z * list Z)) : world :=
+    match ps with
+    | [] => w
+    | (off, data) :: t =>
+        let w1 := snd (do_pwritev2 w off data) in
+        let st := w_st w1 in
+        drain_aux (set_st w1 (mkStore (s_actual st) (s_filled st) (s_media st) (s_td st) (s_refilling st - 1))) t
+    end.
+  Definition drain (w : world) : world :=
+    let w1 := drain_aux w (w_pending w) in
+    mkW (w_st w1) (w_sor w1) (w_wor w1) (w_ubuf w1) (w_held w1) [] (w_log w1).
+
+  (* FileCacheStore::evict, cache_store.cpp:182-202 *)
+  Definition evict (w : world) (off cnt : Z) : world :=
+    let st := w_st w in
+    if cnt =? -1 then
+      add_log (set_st w (mkStore (s_actual st) (removeFrom (s_filled st) off) (resize (s_media st) off)
+                                 (s_td st) (s_refilling st))) (EvMedT off)
+    else
+      add_log (set_st w (mkStore (s_actual st) (removeRange (s_filled st) off (off + cnt))
+                                 (punch (s_media st) off cnt) (s_td st) (s_refilling st))) (EvPunch off cnt).
+
+  (* FileCachePool::evictOpenedFile + finalizeEvicted on an open file, cache_pool.cpp:205-229:
+     evict(0) under the store's write lock, then truncate_done = false *)
+  Definition evict_all (w : world) : world :=
+    let w1 := evict w 0 (-1) in
+    let st := w_st w1 in
+    set_st w1 (mkStore (s_actual st) (s_filled st) (s_media st) false (s_refilling st)).
+
+  Inductive op :=
+  | OpRead (off : Z) (vsize : Z) (held : list (Z * Z * bool)) (co sync : bool)
+  | OpEvict (off cnt : Z)
+  | OpEvictAll.
+
+  (* result of one op: return value (0 for evictions), the user buffer, the event log in order *)
+  Definition run_op (w : world) (o : op) : (Z * list Z * list event) * world :=
+    let w0 := mkW (w_st w) (w_sor w) (w_wor w) [] [] [] [] in
+    match o with
+    | OpRead off vsize held co sync =>
+        let w1 := mkW (w_st w0) (w_sor w0) (w_wor w0) (repeat 170 (Z.to_nat vsize)) held [] [] in
+        let (r, w2) := preadv2 co sync w1 off vsize in
+        let w3 := drain (add_log w2 (EvRet r)) in
+        ((r, w_ubuf w3, rev (w_log w3)), mkW (w_st w3) (w_sor w3) (w_wor w3) [] [] [] [])
+    | OpEvict off cnt =>
+        let w1 := evict w0 off cnt in ((0, [], rev (w_log w1)), w1)
+    | OpEvictAll =>
+        let w1 := evict_all w0 in ((0, [], rev (w_log w1)), w1)
+    end.
+
+  Fixpoint run_ops (w : world) (ops : list op) : list (Z * list Z * list event) * world :=
+    match ops with
+    | [] => ([], w)
+    | o :: t => let (r, w1) := run_op w o in let (rs, w2) := run_ops w1 t in (r :: rs, w2)
+    end.
+End ReadPath.
